@@ -1081,7 +1081,7 @@ class SourceFinder(object):
             _, outerclip, _ = island_data.scalars
             self.log.debug("Integrated flux for island {0}".format(isle_num))
             kappa_sigma = np.where(
-                abs(idata) - outerclip * rms > 0, idata, np.nan)
+                abs(idata) - outerclip * rms >= 0, idata, np.nan)
             self.log.debug("- island shape is {0}".format(kappa_sigma.shape))
 
             source = IslandSource()
